@@ -482,4 +482,10 @@ def pinned_traces(tier):
             evs += [{"op": "checkpoint", "sink": "seekable"}, {"op": "restart"}]
     evs += [{"op": "checkpoint", "sink": "seekable"}, {"op": "restart"}]
     out.append({"property": ID, "seed": "same-shape-sizes-differing-in-remainder", "tier": "pinned", "config": {"pinned": True, "max_slides": 4}, "start": [{"deck": "default"}], "events": evs})
+    evs = [{"op": "add_slide", "layout": 6}, {"op": "c14.add_table", "slide": 0, "rows": 3, "cols": 3, "w": 900000, "h": 600000, "x": 0, "y": 0},
+           {"op": "c14.cell_text", "table": 0, "r": 0, "c": 0, "text": "before"}]
+    evs += [{"op": "checkpoint", "sink": "seekable"}] + [{"op": "checkpoint", "sink": "seekable", "fault": {"kind": k_, "at": 50, "at_frac": f_, "sticky": False}} for k_, f_ in (("enospc", 0.97), ("eio", 0.995), ("enospc", 0.6))]
+    evs += [{"op": "c14.merge", "table": 0, "r": 0, "c": 0, "r2": 1, "c2": 1}, {"op": "c14.cell_text", "table": 0, "r": 2, "c": 2, "text": "after"},
+            {"op": "c14.resize", "table": 0, "r": 0, "c": 0, "what": "col", "v": 123456}, {"op": "checkpoint", "sink": "seekable"}, {"op": "restart"}]
+    out.append({"property": ID, "seed": "late-failed-save-then-edit", "tier": "pinned", "config": {"pinned": True}, "start": [{"deck": "default"}], "events": evs})
     return out
